@@ -107,6 +107,7 @@ def make_clause(specs, name="layouts", doc=None):
                 for di in range(len(sp.get("dtypes", {}).get(ai, []))):
                     out.append((si, ai, "dtype:%d" % di))
             out.append((si, -1, "mutation"))
+            out.append((si, -1, "state-leak"))
         return out
 
     def check(case):
@@ -121,6 +122,37 @@ def make_clause(specs, name="layouts", doc=None):
         except Exception as e:
             return Res([("%s:%s:reference-exc" % (name, key), "%s: the plain call raised %s: %s" % (key, type(e).__name__, e))])
         v = []
+        if how == "state-leak":
+            # the same call again after a call with other values of the same shapes (and after the caller scribbled over the first result): same result
+            def perturbed(a):
+                if not isinstance(a, np.ndarray) or a.size == 0:
+                    return a
+                b = a[..., ::-1].copy() if a.ndim else a.copy()
+                if b.dtype.kind == "f" or b.dtype.kind == "c":
+                    b = b * 1.5 + (0.25 * (np.abs(b).max() if b.size else 0.0))
+                elif b.dtype.kind in "iu" and b.size > 1:
+                    b = np.roll(b, 1)
+                return b.astype(a.dtype)
+            try:
+                first = sp["fn"](*[a.copy() if isinstance(a, np.ndarray) else a for a in args], **kw)
+                snap = [(lab, x.copy()) for lab, x in flatten(first)]
+                for lab, x in flatten(first):
+                    if isinstance(x, np.ndarray) and x.flags.writeable and x.size:
+                        try:
+                            x[...] = 0
+                        except Exception:
+                            pass
+                try:
+                    sp["fn"](*[perturbed(a) for a in args], **kw)
+                except Exception:
+                    pass          # the perturbed input may be invalid for this call: it only serves to disturb hidden state
+                again = flatten(sp["fn"](*[a.copy() if isinstance(a, np.ndarray) else a for a in args], **kw))
+                d = same(snap, again, 0.0, True)
+                if d:
+                    v.append(("%s:%s:state-leak" % (name, key), "%s: the same call gives another result after a call with other values of the same shapes: %s" % (key, d)))
+            except Exception as e:
+                v.append(("%s:%s:state-leak-exc" % (name, key), "%s: %s: %s" % (key, type(e).__name__, e)))
+            return Res(v, o=(key, how))
         if how == "mutation":
             # the result must not share memory with an argument: the caller goes on using (overwrites) its own arrays
             keep_args = [a.copy() if isinstance(a, np.ndarray) else a for a in args]
